@@ -902,8 +902,13 @@ fn edge_map<S: Shape, const N: usize>(t: &Value, line: usize, rep: &mut Report) 
                     let mut b: Vec<(u8, u8)> = m.iter().map(|(k, v)| (S::kc(k), S::vc(v))).collect();
                     a.sort();
                     b.sort();
-                    if a != b || !(cp == *m) {
-                        fails.push(Fail { props: "C15".into(), msg: format!("[{}] the clone holds {a:?}, the original {b:?}", S::NAME) });
+                    // (== is user-visible API of its own: it must not panic for any element shape)
+                    let same = measured(&mut allocs, || cp == *m && *m == cp && !(cp != *m));
+                    if same.is_none() {
+                        fails.push(Fail { props: "C14".into(), msg: format!("[{}] comparing a container with its clone panicked", S::NAME) });
+                    }
+                    if a != b || same == Some(false) {
+                        fails.push(Fail { props: "C14,C15".into(), msg: format!("[{}] the clone holds {a:?}, the original {b:?}; equal: {same:?}", S::NAME) });
                     }
                     Value::Null // the instrumented run compares the rest
                 }
@@ -1055,8 +1060,12 @@ fn edge_set_generic<S: Shape, const N: usize>(
                     let mut b: Vec<u8> = m.iter().map(|k| S::kc(k)).collect();
                     a.sort();
                     b.sort();
-                    if a != b || !(cp == *m) {
-                        fails.push(Fail { props: "C15".into(), msg: format!("[{}] the clone holds {a:?}, the original {b:?}", S::NAME) });
+                    let same = measured(&mut allocs, || cp == *m && *m == cp && !(cp != *m));
+                    if same.is_none() {
+                        fails.push(Fail { props: "C14".into(), msg: format!("[{}] comparing a set with its clone panicked", S::NAME) });
+                    }
+                    if a != b || same == Some(false) {
+                        fails.push(Fail { props: "C14,C15".into(), msg: format!("[{}] the clone holds {a:?}, the original {b:?}; equal: {same:?}", S::NAME) });
                     }
                 }
             }
